@@ -463,7 +463,12 @@ class MementoFunction(MementoFunctionBase):
                     if self._calculated_version is None:
                         self._calculated_version = entry.version
                         self._update_fn_reference()
-                    return
+                        return
+                    if self._calculated_version == entry.version:
+                        return
+                    # The entry was refreshed through another instance of this function (e.g. an
+                    # unregistered wrapper) after this instance last computed its version:
+                    # this instance's version and rules are out of date, so recompute.
 
         # Otherwise, it needs to be calculated based on code hash and dependencies
         version = self._recompute_version()
